@@ -25,8 +25,8 @@ ALLOW_EMPTY_STEPS = False
 
 COMPONENTS = {
     "real": ["buidl.tx.TxFetcher.fetch/load_cache/dump_cache (class-level cache)", "buidl.tx.Tx.parse/parse_hex/serialize/id/hash", "TxIn.value()/script_pubkey()/fetch_tx, Tx.fee(), Tx.get_input_tx_lookup()",
-             "buidl.script.Script.parse/raw_serialize, buidl.witness.Witness codec (through the served transactions)"],
-    "stub": ["block explorers for mainnet/testnet/signet (generated chain database, per-response behaviour catalogue)", "urllib urlopen (buidl.tx.urlopen)", "file system (buidl.tx.open)"],
+             "buidl.script.Script.parse/raw_serialize, buidl.witness.Witness codec (through the served transactions)", "Tx/TxIn/TxOut/Script/Witness constructors and public lists (API-built transactions, in-place edits), Tx.verify_input/fee/sig_hash/clone as read-only uses"],
+    "stub": ["block explorers for mainnet/testnet/signet (generated chain database, per-response behaviour catalogue)", "urllib urlopen (buidl.tx.urlopen)", "file system (buidl.tx.open): torn writes, disk full part-way through a write, a stored character flipped between dump and load"],
 }
 LEVEL = {"C04": "exploration"}
 RULE = {
